@@ -9,6 +9,8 @@ for d in sorted(glob.glob(os.path.join(ROOT, "seeded", "C*-m*")), key=lambda p: 
     summ = summ[:170] + ("…" if len(summ) > 170 else "")
     det = re.sub(r"\s+", " ", str(m.get("detected_by", ""))).replace("|", "/")
     first = "strengthened" if re.search(r"MISSED|missed|\*\*missed\*\*|then ", det) else "caught"
+    if re.match(r"not by ", det) and first == "caught":
+        first = "other property"
     det = det[:260] + ("…" if len(det) > 260 else "")
     rows.append("| %s | %s | %s | %s |" % (name, summ, det, first))
 print("| seed | change | caught by | first run |")
@@ -16,4 +18,6 @@ print("|---|---|---|---|")
 print("\n".join(rows))
 n = len(rows)
 s = sum(1 for r in rows if r.endswith("| strengthened |"))
-print("\n%d seeded changes, %d caught on the first run, %d missed at first and answered by a stronger check." % (n, n - s, s))
+o = sum(1 for r in rows if r.endswith("| other property |"))
+print("\n%d seeded changes: %d caught on the first run by the check of the property they were aimed at, %d not by that check but on the first run by the check of "
+      "the property that owns the broken mechanism, %d missed at first and answered by a stronger check." % (n, n - s - o, o, s))
